@@ -229,7 +229,7 @@ fn axis(n: i32, d: i32) -> BoxedStrategy<(i32, i32, i32)> {
 }
 
 pub fn strategy() -> BoxedStrategy<Case> {
-    let dim = || prop_oneof![1 => Just(0i32), 8 => 1i32..=6, 1 => 1i32..=40];
+    let dim = || prop_oneof![4 => Just(0i32), 32 => 1i32..=6, 4 => 1i32..=40, 1 => 257i32..=300];
     (dim(), dim(), dim(), dim())
         .prop_flat_map(|(sw, sh, dw, dh)| (Just((sw, sh, dw, dh)), axis(sw, dw), axis(sh, dh)))
         .prop_flat_map(|((sw, sh, dw, dh), rx, ry)| {
@@ -272,7 +272,7 @@ pub fn strategy() -> BoxedStrategy<Case> {
 pub fn property(_ctx: &Ctx) -> Property {
     Property {
         id: "C15",
-        rule: "part grid: exhaustive enumeration of copy_surface over source and destination sizes (0..=2)^2 [thorough (0..=3)^2], src_rect corners in [-1,3]^4 [[-1,4]^4] (so empty and inverted rects occur), dst in [-2,3]^2 [[-2,4]^2], position-tagged pixels. part random: proptest over sizes 0..40, rect/dst coordinates near, +-100 and +-10^6, copy/blend_surface(28 modes)/blend_surface_with_alpha with random premultiplied pixels, with a random transform, clip rect and open layer set (must be ignored). Oracle: block-transfer model (source pixel src_rect.min+(i,j) -> dst+(i,j), limited to src_rect within the source and to the destination). Non-trivial: transfer region non-empty and (src_rect.min != (0,0) or region partially clipped); distinct by (sizes, rect, dst, kind, mode).",
+        rule: "part grid: exhaustive enumeration of copy_surface over source and destination sizes (0..=2)^2 [thorough (0..=3)^2], src_rect corners in [-1,3]^4 [[-1,4]^4] (so empty and inverted rects occur), dst in [-2,3]^2 [[-2,4]^2], position-tagged pixels. part random: proptest over sizes 257..300 (one dimension in forty) and 0..40, rect/dst coordinates near, +-100 and +-10^6, copy/blend_surface(28 modes)/blend_surface_with_alpha with random premultiplied pixels, with a random transform, clip rect and open layer set (must be ignored). Oracle: block-transfer model (source pixel src_rect.min+(i,j) -> dst+(i,j), limited to src_rect within the source and to the destination). Non-trivial: transfer region non-empty and (src_rect.min != (0,0) or region partially clipped); distinct by (sizes, rect, dst, kind, mode).",
         assumptions: vec!["blend formulas are sw_composite's public per-pixel functions (blend::*, over_in)", "exhaustive applies to the 'grid' part only"],
         parts: vec![
             enum_part("grid", grid_size(Tier::Quick), grid_size(Tier::Thorough), decode, check),
